@@ -265,6 +265,11 @@ We therefore choose to make any modifications to the calendar object in-place
 """
 calendars = dict()
 
+def _day(date):
+    """the day of a date as a naive midnight: ymd keeps the zone of a zone-aware stamp, which would never match the naive holidays and lookup tables"""
+    t = ymd(date)
+    return datetime.datetime(t.year, t.month, t.day)
+
 class Calendar(Dict, _calendar):
     """
     Calendar is 
@@ -366,7 +371,7 @@ class Calendar(Dict, _calendar):
                 weekend = [5,6]
             else:
                 weekend = as_list(weekend)
-            holidays = [ymd(h) for h in as_list(holidays)] # is_holiday looks up ymd(date), a datetime: a holiday given as a datetime.date / np.datetime64 / text was never found
+            holidays = [_day(h) for h in as_list(holidays)] # is_holiday looks up _day(date), a naive midnight: a holiday given as a datetime.date / np.datetime64 / text / zone-aware stamp was never found
             holidays = dict(zip(holidays, holidays)) # we prefer to store holidays as a dict, as check of date in holidays is faster for hash
             super(Calendar, self).__init__(weekend = weekend, holidays = holidays,
                                            key = key, t0 = t0, t1 = t1, adj = adj)
@@ -388,10 +393,10 @@ class Calendar(Dict, _calendar):
         return 'calendar(%(key)s) from %(t0)s to %(t1)s'%self
     
     def is_holiday(self, date):
-        return date.weekday() in self.weekend or ymd(date) in self.holidays
+        return date.weekday() in self.weekend or _day(date) in self.holidays
     
     def is_bday(self, date):
-        return date.weekday() not in self.weekend and ymd(date) not in self.holidays
+        return date.weekday() not in self.weekend and _day(date) not in self.holidays
 
     def is_trading(self, date = None, day_start = None, day_end = None):
         """
